@@ -126,7 +126,7 @@ pub fn min_paths(e: &min::Element) -> Vec<(&'static str, Vec<u8>)> {
     v
 }
 
-trait Paths: Backend {
+pub trait Paths: Backend {
     fn paths(e: &Self::E) -> Vec<(&'static str, Vec<u8>)>;
 }
 impl Paths for Ark {
